@@ -49,6 +49,37 @@ def mc(cs, what, expect=None, timeout=600, simulate=None, depth=None, seed=None)
     return r
 
 
+def stratified(behs, rnd, n):
+    """a sample of n behaviours that keeps (a) every behaviour in which a later statement names a column an earlier one introduced (renamed to /
+    added), (b) one behaviour per sequence of statement kinds, and fills the rest at random - so that the sample does not lose the state-dependent
+    sequences when the generator grows"""
+    if len(behs) <= n:
+        return list(behs)
+    def dependent(b):
+        new = set()
+        for s_ in b["hist"]:
+            named = {(c_[0] if isinstance(c_[0], str) else c_[0][0]) for c_ in (s_.get("cs") or []) if isinstance(c_, (list, tuple)) and c_} | \
+                    ({s_["c"][0]} if s_.get("c") else set())
+            if named & new:
+                return True
+            if s_["k"] == "rename":
+                new.add(s_["x"])
+            elif s_["k"] == "addcol" and s_.get("c"):
+                new.add(s_["c"][0])
+        return False
+    keep = [b for b in behs if dependent(b)]
+    seen = {tuple(s_["k"] for s_ in b["hist"]) for b in keep}
+    for b in behs:
+        k = tuple(s_["k"] for s_ in b["hist"])
+        if k not in seen:
+            seen.add(k)
+            keep.append(b)
+    rest = [b for b in behs if b not in keep]
+    if len(keep) < n:
+        keep += rnd.sample(rest, min(len(rest), n - len(keep)))
+    return keep
+
+
 def compare(V, behs, seeds, what, ctor=None, run=None, tags_of=None):
     """render every behaviour under every seed, parse, project, compare with TLC's state"""
     tasks, meta = [], []
